@@ -16,6 +16,9 @@ Definition gjs : string := "gov GenesisState is encoded as JSON only (export-gen
 
 Definition wire : string := "wiring-time setter: called from app.NewInitApp only (or not at all), before the first block; never from a handler".
 
+Definition stdt : string := "the value is only compared or stored through protobuf stdtime (seconds + nanoseconds since the epoch): its zone never reaches a store byte".
+Definition logm : string := "rendered into a log line / the halt panic message of this node only; never stored, hashed or returned in a response".
+
 Definition audited_sites : list audit := [
   mkAudit "x/evidence/keeper/keeper.go" "Keeper.SetRouter" KProcState "keeper.Keeper.router" 1 "378ab6d753963e50" (Harmless wire);
   mkAudit "x/evidence/types/router.go" "router.AddRoute" KProcState "types.router.routes" 1 "e0172629e772c76d" (Harmless wire);
@@ -26,6 +29,14 @@ Definition audited_sites : list audit := [
   mkAudit "x/slashing/keeper/keeper.go" "Keeper.SetHooks" KProcState "keeper.Keeper.hooks" 1 "300fe436c6e37b5f" (Harmless wire);
   mkAudit "x/staking/keeper/keeper.go" "Keeper.SetHooks" KProcState "keeper.Keeper.hooks" 1 "1d8a50ca33095404" (Harmless wire);
   mkAudit "x/upgrade/keeper/keeper.go" "Keeper.SetUpgradeHandler" KProcState "keeper.Keeper.upgradeHandlers" 1 "f9fb1bdfcc72eecc" (Harmless wire);
+  mkAudit "x/basket/module.go" "AppModule.InitGenesis" KLocalTime "time.Unix" 3 "f8f06f22f700fbb1" (Harmless "the local-zone value only reaches keeper.Set{Mint,Burn,Swap}Amount, whose store keys are built with sdk.FormatTimeBytes (= t.UTC().Round(0).Format): the zone is dropped; replica with another host zone imports such a genesis (history genesis-time-keyed)");
+  mkAudit "x/evidence/types/params.go" "<pkg>" KLocalTime "time.Unix" 1 "7a8bcc1e725e8e77" (Harmless stdt);
+  mkAudit "x/slashing/keeper/hooks.go" "Keeper.AfterValidatorJoined" KLocalTime "time.Unix" 1 "8bad96588b45aaf1" (Harmless stdt);
+  mkAudit "x/slashing/keeper/rank.go" "Keeper.ResetWholeValidatorRank" KLocalTime "time.Unix" 1 "1300cf92ab621d1e" (Harmless stdt);
+  mkAudit "x/upgrade/abci.go" "BeginBlocker" KLocalTime "Time.String" 1 "90b5a937f3e77f90" (Harmless logm);
+  mkAudit "x/upgrade/abci.go" "BeginBlocker" KLocalTime "time.Unix" 1 "90b5a937f3e77f90" (Harmless logm);
+  mkAudit "x/upgrade/keeper/plan.go" "Keeper.ApplyUpgradePlan" KLocalTime "Time.String" 1 "71d8116d3fe40b25" (Harmless logm);
+  mkAudit "x/upgrade/keeper/plan.go" "Keeper.ApplyUpgradePlan" KLocalTime "time.Unix" 1 "71d8116d3fe40b25" (Harmless logm);
   mkAudit "app/app.go" "BlockedAddresses" KMapRange "GetMaccPerms()" 1 "1e01a29695c7dbe7" (Harmless "fills a membership map");
   mkAudit "app/app.go" "GetMaccPerms" KMapRange "maccPerms" 1 "65321bf763126ecf" (Harmless "copies a map into a map");
   mkAudit "app/app.go" "SekaiApp.ModuleAccountAddrs" KMapRange "maccPerms" 1 "ae662819fb7c73d2" (Harmless "fills a membership map");
@@ -69,7 +80,8 @@ Definition audited_sites : list audit := [
 
 (* Every source of replica nondeterminism the translator finds in the tree (time.Now/Since/Until,
    math/rand + crypto/rand, range over a Go map, protobuf Marshal ranging a map<> field, maps.Keys,
-   go statements, os environment / host time zone, package runtime, writes to process-local state
+   go statements, os environment / host time zone, package runtime, local-zone times (time.Unix / Parse / Date / In with a non-UTC location,
+   zone-dependent renderings of a time.Time not forced by .UTC()), writes to process-local state
    (package-level variables, fields of application structs reached from a receiver or parameter) outside
    constructors / init / Register*; all non-test, non-client code
    under x/, app/ and types/) is an audited entry: harmless for a stated reason, or a recorded
